@@ -2,6 +2,7 @@
 import shutil
 
 import tracecheck
+from checks.common import small_scope
 import vlib
 
 LEVEL = "model_checking"
@@ -18,12 +19,13 @@ def nontrivial(chk, allruns):
         c0, c1 = reset[0]["circ"]["cells"], rets[0]["circ"]["cells"]
         mov = [i for i, e in enumerate(c0) if not e["f"]]
         if len(mov) >= 2 and any((c0[i]["x"], c0[i]["y"]) != (c1[i]["x"], c1[i]["y"]) for i in mov):
-            chk.nontrivial("run%s" % reset[0]["gseed"])
+            chk.nontrivial("run%s%s" % ("x" if reset[0].get("explicit") else "", reset[0]["gseed"]))
             chk.sample({"run": rid, "movable": len(mov), "rows": len(reset[0]["circ"]["rows"]),
                         "params": reset[0]["params"]}, limit=4)
 
 
 def run(chk):
+    small_scope(chk, "C01", nontrivial)
     n = chk.pick(1600, 40000)
     for flavour, share in (("asan-ubsan", 1.0),):
         results, d, allruns, exe = tracecheck.record_and_validate(
@@ -31,7 +33,8 @@ def run(chk):
         tracecheck.attribute(chk, results, "C01", exe, "leg", flavour, d)
         nontrivial(chk, allruns)
         shutil.rmtree(d, ignore_errors=True)
-    chk.cov["rule"] = ("legalize executions on seeded random circuits of the C01 domain (split rows, gaps, orientation patterns, "
+    chk.cov["rule"] = ("exhaustive small scope (LegalizeCases.tla: 2 row levels x orientation patterns x optional split x optional fixed cell x up to 2 movable "
+                       "cells with widths, heights 1-2 rows, polarities, targets) legalized twice by the real code; legalize executions on seeded random circuits of the C01 domain (split rows, gaps, orientation patterns, "
                        "multi-row cells, macros, turned cells, polarities, fixed cells anywhere, utilisation 5%-130%, random accepted "
                        "parameter sets); non-trivial = returned, moved a cell, >= 2 movable cells; distinct by generator seed")
     chk.assumptions += ["TLC evaluates Geometry.Legal / TrivialFit on every recorded event",
